@@ -10,7 +10,7 @@ US = ["Type_Scan.0:24", "Type_Scan.1:24", "strcmp.0:24"]
 OBLIGATIONS = [
     Ob("range.iter.b6", "C11/range.c", defs=["B=6"], unwind=17, unwindset=US, checks=["overflow", "div0"], tiers=("quick", "thorough"), timeout=900,
        desc="Range forward/backward iteration, len, get for start,stop in [-6,6], step in [-3,3]"),
-    Ob("range.len64", "C11/range_len64.c", unwind=5, unwindset=US, checks=["overflow", "div0"], tiers=("thorough",), timeout=3600,
+    Ob("range.len64", "C11/range_len64.c", unwind=5, unwindset=US, checks=["overflow", "div0"], tiers=("probe",), timeout=3600,
        desc="Range_Len vs closed form over 62-bit operands"),
 ]
 RC = ["iter_init:v_iter_init", "iter_next:v_iter_next", "iter_last:v_iter_last", "iter_prev:v_iter_prev", "iter_type:v_iter_type", "len:v_len", "get:v_get", "call_with:v_call"]
